@@ -14,7 +14,7 @@ variable {E B G P A : Type}
 /-! ### one item of a sequence -/
 
 /-- the expansion of ONE item of a sequence (the local `one` of `expandItemsWith`) -/
-def expandOne (ops : Ops E B G A) (defs : Defs E B G P A) (attached : Bool)
+def expandOne (ops : Ops E B G A) (defs : Defs E B G P A) (full : Bool)
     (recur : ExpSt → SItems E B G P A (MInv E) → Except ExpandErr (SItems E B G P A (MInv E) × ExpSt))
     (st : ExpSt) : SItem E B G P A (MInv E) → Except ExpandErr (SItems E B G P A (MInv E) × ExpSt)
   | .flat f => .ok (.cons (.flat f) .nil, st)
@@ -22,34 +22,34 @@ def expandOne (ops : Ops E B G A) (defs : Defs E B G P A) (attached : Bool)
     match expandAltsWith recur st alts with
     | .error e => .error e
     | .ok (alts', st1) => .ok (.cons (.disj alts') .nil, st1)
-  | .mac inv => expandInv ops defs attached recur st inv
+  | .mac inv => expandInv ops defs full recur st inv
 
-theorem expandItemsWith_cons (ops : Ops E B G A) (defs : Defs E B G P A) (attached : Bool)
+theorem expandItemsWith_cons (ops : Ops E B G A) (defs : Defs E B G P A) (full : Bool)
     (recur : ExpSt → SItems E B G P A (MInv E) → Except ExpandErr (SItems E B G P A (MInv E) × ExpSt))
     (st : ExpSt) (i : SItem E B G P A (MInv E)) (rest : SItems E B G P A (MInv E)) :
-    expandItemsWith ops defs attached recur st (.cons i rest) =
-      match expandOne ops defs attached recur st i with
+    expandItemsWith ops defs full recur st (.cons i rest) =
+      match expandOne ops defs full recur st i with
       | .error e => .error e
       | .ok (is, st1) =>
-        match expandItemsWith ops defs attached recur st1 rest with
+        match expandItemsWith ops defs full recur st1 rest with
         | .error e => .error e
         | .ok (rest', st2) => .ok (is.append rest', st2) := by
   cases i <;> rfl
 
-theorem expandItemsWith_cons_ok {ops : Ops E B G A} {defs : Defs E B G P A} {attached : Bool}
+theorem expandItemsWith_cons_ok {ops : Ops E B G A} {defs : Defs E B G P A} {full : Bool}
     {recur : ExpSt → SItems E B G P A (MInv E) → Except ExpandErr (SItems E B G P A (MInv E) × ExpSt)}
     {st : ExpSt} {i : SItem E B G P A (MInv E)} {rest : SItems E B G P A (MInv E)} {r : SItems E B G P A (MInv E) × ExpSt}
-    (h : expandItemsWith ops defs attached recur st (.cons i rest) = .ok r) :
-    ∃ is st1 rest', expandOne ops defs attached recur st i = .ok (is, st1) ∧
-      expandItemsWith ops defs attached recur st1 rest = .ok (rest', r.2) ∧ r.1 = is.append rest' := by
+    (h : expandItemsWith ops defs full recur st (.cons i rest) = .ok r) :
+    ∃ is st1 rest', expandOne ops defs full recur st i = .ok (is, st1) ∧
+      expandItemsWith ops defs full recur st1 rest = .ok (rest', r.2) ∧ r.1 = is.append rest' := by
   rw [expandItemsWith_cons] at h
-  cases h1 : expandOne ops defs attached recur st i with
+  cases h1 : expandOne ops defs full recur st i with
   | error e => rw [h1] at h; cases h
   | ok p =>
     obtain ⟨is, st1⟩ := p
     rw [h1] at h
     simp only at h
-    cases h2 : expandItemsWith ops defs attached recur st1 rest with
+    cases h2 : expandItemsWith ops defs full recur st1 rest with
     | error e => rw [h2] at h; cases h
     | ok q =>
       obtain ⟨rest', st2⟩ := q
@@ -78,13 +78,13 @@ theorem expandAltsWith_cons_ok {S : Type} {recur : S → SItems E B G P A (MInv 
       cases h
       exact ⟨a', st1, rest', rfl, h2, rfl⟩
 
-theorem expandInv_ok {ops : Ops E B G A} {defs : Defs E B G P A} {attached : Bool}
+theorem expandInv_ok {ops : Ops E B G A} {defs : Defs E B G P A} {full : Bool}
     {recur : ExpSt → SItems E B G P A (MInv E) → Except ExpandErr (SItems E B G P A (MInv E) × ExpSt)}
     {st : ExpSt} {inv : MInv E} {r : SItems E B G P A (MInv E) × ExpSt}
-    (h : expandInv ops defs attached recur st inv = .ok r) :
+    (h : expandInv ops defs full recur st inv = .ok r) :
     ∃ d exp st', defs[inv.mac]? = some d ∧ argsOk d.params inv.args = true ∧
       recur { st with inv := st.inv + 1 } (instItems ops inv.args (tagVar st.inv) d.body) = .ok (exp, st') ∧
-      r = (renItems ops true (untagMap st.inv) (renItems ops attached (renameMap st.inv st'.gs exp) exp),
+      r = (renItems ops true (untagMap st.inv) (renItems ops full (renameMap st.inv st'.gs exp) exp),
             { st' with gs := st'.gs + (originated st.inv exp).length }) := by
   unfold expandInv at h
   cases hd : defs[inv.mac]? with
@@ -123,18 +123,18 @@ theorem expandAltsWith_mono {S : Type} {recur recur' : S → SItems E B G P A (M
     simp only at h3
     rw [h3]
 
-theorem expandInv_mono {ops : Ops E B G A} {defs : Defs E B G P A} {attached : Bool}
+theorem expandInv_mono {ops : Ops E B G A} {defs : Defs E B G P A} {full : Bool}
     {recur recur' : ExpSt → SItems E B G P A (MInv E) → Except ExpandErr (SItems E B G P A (MInv E) × ExpSt)}
     (hle : RecLe recur recur') (st : ExpSt) (inv : MInv E) r
-    (h : expandInv ops defs attached recur st inv = .ok r) : expandInv ops defs attached recur' st inv = .ok r := by
+    (h : expandInv ops defs full recur st inv = .ok r) : expandInv ops defs full recur' st inv = .ok r := by
   obtain ⟨d, exp, st', hd, ha, hr, rfl⟩ := expandInv_ok h
   unfold expandInv
   simp only [hd, ha, Bool.not_true, Bool.false_eq_true, if_false, hle _ _ _ hr]
 
-theorem expandOne_mono {ops : Ops E B G A} {defs : Defs E B G P A} {attached : Bool}
+theorem expandOne_mono {ops : Ops E B G A} {defs : Defs E B G P A} {full : Bool}
     {recur recur' : ExpSt → SItems E B G P A (MInv E) → Except ExpandErr (SItems E B G P A (MInv E) × ExpSt)}
     (hle : RecLe recur recur') (st : ExpSt) (i : SItem E B G P A (MInv E)) r
-    (h : expandOne ops defs attached recur st i = .ok r) : expandOne ops defs attached recur' st i = .ok r := by
+    (h : expandOne ops defs full recur st i = .ok r) : expandOne ops defs full recur' st i = .ok r := by
   cases i with
   | flat f => exact h
   | mac inv => exact expandInv_mono hle st inv r h
@@ -147,10 +147,10 @@ theorem expandOne_mono {ops : Ops E B G A} {defs : Defs E B G P A} {attached : B
       rw [expandAltsWith_mono hle alts st p h1]
       exact h
 
-theorem expandItemsWith_mono {ops : Ops E B G A} {defs : Defs E B G P A} {attached : Bool}
+theorem expandItemsWith_mono {ops : Ops E B G A} {defs : Defs E B G P A} {full : Bool}
     {recur recur' : ExpSt → SItems E B G P A (MInv E) → Except ExpandErr (SItems E B G P A (MInv E) × ExpSt)}
     (hle : RecLe recur recur') : ∀ (items : SItems E B G P A (MInv E)) (st : ExpSt) r,
-    expandItemsWith ops defs attached recur st items = .ok r → expandItemsWith ops defs attached recur' st items = .ok r
+    expandItemsWith ops defs full recur st items = .ok r → expandItemsWith ops defs full recur' st items = .ok r
   | .nil, st, r, h => h
   | .cons i rest, st, r, h => by
     obtain ⟨is, st1, rest', h1, h2, h3⟩ := expandItemsWith_cons_ok h
@@ -161,8 +161,8 @@ theorem expandItemsWith_mono {ops : Ops E B G A} {defs : Defs E B G P A} {attach
     simp only at h3
     rw [h3]
 
-theorem expandBody_recLe (ops : Ops E B G A) (defs : Defs E B G P A) (attached : Bool) :
-    ∀ d, RecLe (expandBody ops defs attached d) (expandBody ops defs attached (d + 1))
+theorem expandBody_recLe (ops : Ops E B G A) (defs : Defs E B G P A) (full : Bool) :
+    ∀ d, RecLe (expandBody ops defs full d) (expandBody ops defs full (d + 1))
   | 0 => by
     intro st items r h
     cases items with
@@ -170,7 +170,7 @@ theorem expandBody_recLe (ops : Ops E B G A) (defs : Defs E B G P A) (attached :
     | cons i rest => cases h
   | d + 1 => by
     intro st items r h
-    exact expandItemsWith_mono (expandBody_recLe ops defs attached d) items st r h
+    exact expandItemsWith_mono (expandBody_recLe ops defs full d) items st r h
 
 
 /-! ### `argsOk`, `indexOf?`, `originated` -/
